@@ -26,7 +26,9 @@ IRegs == 2..7   DRegs == 12..14   FRegs == 15..16   LRegs == 17..18
 MainRegTy == <<"i", "i", "i", "i", "i", "i", "i", "i", "i", "i", "i", "d", "d", "d", "f", "f", "ld", "ld">>
 Reg(r) == [k |-> "reg", r |-> r]
 Imm(w) == [k |-> "imm", w |-> w]
-Mem(ty, disp, base, idx, scale) == [k |-> "mem", ty |-> ty, disp |-> disp, base |-> base, idx |-> idx, scale |-> scale]
+Mem(ty, disp, base, idx, scale) == [k |-> "mem", ty |-> ty, disp |-> disp, base |-> base, idx |-> idx, scale |-> scale, al |-> ""]
+(* memory operand with an alias name: accesses with different non-empty alias names are promised not to overlap *)
+MemA(ty, disp, al) == [k |-> "mem", ty |-> ty, disp |-> disp, base |-> RBUF, idx |-> 0, scale |-> 1, al |-> al]
 BufSize == 320
 FuelInit == 6
 
@@ -87,10 +89,19 @@ Ref(f) == [k |-> "ref", f |-> f]
 SmallImms == {Zero64, One64, Ones64, FromNat(2), FromNat(3), FromNat(7), FromNat(255), FromNat(256), FromNat(65535),
               <<65535, 32767, 0, 0>>, <<0, 32768, 0, 0>>, <<0, 0, 1, 0>>, MinS64, MaxS64, <<21845, 21845, 21845, 21845>>}
 IntMemTys == {"i8", "u8", "i16", "u16", "i32", "u32", "i64"}
+(* alias discipline: name "A" only on bytes 128..143, name "B" only on bytes 144..159, so the promise is kept by construction *)
 IntScratch == {Mem(ty, d, RBUF, 0, 1) : ty \in IntMemTys, d \in {128, 129, 132, 136, 144, 152}}
+              \cup {MemA(ty, d, "A") : ty \in IntMemTys, d \in {128, 129, 132}}
+              \cup {MemA(ty, d, "B") : ty \in IntMemTys, d \in {144, 148, 152}}
 ISrc == {Reg(r) : r \in IRegs} \cup {Imm(w) : w \in SmallImms} \cup IntScratch
 ISrcReg == {Reg(r) : r \in IRegs}
 IDst == {Reg(r) : r \in IRegs} \cup {Mem(ty, d, RBUF, 0, 1) : ty \in {"i8", "i16", "u32", "i64"}, d \in {128, 136, 144}}
+        \cup {MemA(ty, 128, "A") : ty \in {"i8", "u32", "i64"}} \cup {MemA(ty, 132, "A") : ty \in {"i16", "i64"}}
+        \cup {MemA(ty, 144, "B") : ty \in {"i16", "i64"}} \cup {MemA(ty, 152, "B") : ty \in {"u8", "i32"}}
+MemOps == {x \in IntScratch \cup IDst : x.k = "mem"}
+ASSUME AliasPromiseKept ==
+  \A x \in MemOps, y \in MemOps :
+    (x.al # "" /\ y.al # "" /\ x.al # y.al) => (x.disp + TySize(x.ty) <= y.disp \/ y.disp + TySize(y.ty) <= x.disp)
 SafeBin == (IntArith \cup IntCmp) \ {"div", "divs", "udiv", "udivs", "mod", "mods", "umod", "umods", "lsh", "lshs", "rsh", "rshs", "ursh", "urshs"}
 Shifts64 == {"lsh", "rsh", "ursh"}   Shifts32 == {"lshs", "rshs", "urshs"}
 Divs == {"div", "divs", "udiv", "udivs", "mod", "mods", "umod", "umods"}
